@@ -103,6 +103,7 @@ def check(c: Check):
     clause_i(c)
     clause_e_full(c)
     clause_j(c)
+    clause_k(c)
     from .common import sweep_records
     sweep_records(c, 'C01-rec', ['exactly_lib.execution'], floor=15)
 
@@ -1053,3 +1054,53 @@ def clause_j(c: Check):
                      'handled before it (e.g. a usage "already validated" is skipped although it stands in another '
                      'context)' % (k.name, ', '.join('self.' + a for a in changed)), ap.loc())
     c.floor('C01-j', 'step executors checked for state', n2, 13)
+
+
+# ---------------------------------------------------------------- k
+def clause_k(c: Check):
+    """ERR / DT of the steps of the action to check: each action the ATC executor builds for a step (validation of the
+    execution input, validate-post-setup, prepare, execute) asks the actor / the input and raises the step's failure
+    exactly when the answer says "not successful" (`not res.is_success`, `not x.is_exit_code`, a failure message
+    that is present) and returns normally otherwise.  A reversed or dropped test lets a failed preparation go on to
+    execution - or fails every successful one."""
+    ix, fo = c.ix, c.fo
+    ae = ix.cls('exactly_lib.execution.partial_execution.impl.atc_execution:ActionToCheckExecutor')
+    psfe = ix.cls(RESULT_MOD + ':PhaseStepFailureException') if 'RESULT_MOD' in globals() else \
+        ix.cls('exactly_lib.execution.result:PhaseStepFailureException')
+    n_actions = 0
+    for name, m in sorted(ae.methods.items()):
+        nested = [b[1] for bs in m.local_bindings().values() for b in bs if b[0] == 'def']
+        if not nested or not any(p_.arg == 'failure_con' for p_ in m.positional_params()):
+            continue
+        for act in nested:
+            n_actions += 1
+            outcomes = {}
+            for p in util.func_paths(ix, fo, act, Hooks()):
+                verdicts = []
+                for test, truth in p.guards:
+                    t = test
+                    neg = False
+                    while isinstance(t, ast.UnaryOp) and isinstance(t.op, ast.Not):
+                        neg = not neg
+                        t = t.operand
+                    if isinstance(t, ast.Attribute) and t.attr in ('is_success', 'is_exit_code'):
+                        verdicts.append('ok' if (truth != neg) else 'failed')
+                    elif isinstance(t, (ast.Name, ast.Attribute)) and 'message' in unparse(t):
+                        verdicts.append('failed' if (truth != neg) else 'ok')
+                    elif isinstance(t, ast.Compare) and len(t.ops) == 1 and isinstance(t.ops[0], (ast.Is, ast.IsNot)) \
+                            and isinstance(t.comparators[0], ast.Constant) and t.comparators[0].value is None \
+                            and 'message' in unparse(t.left):
+                        is_none = truth == isinstance(t.ops[0], ast.Is)
+                        verdicts.append('ok' if (is_none != neg) else 'failed')
+                if not verdicts:
+                    continue
+                raised = p.kind == 'raise' and isinstance(p.val, Exc) and p.val.cls is psfe
+                outcomes.setdefault(verdicts[-1], set()).add('raises the failure of the step' if raised else
+                                                             ('returns' if p.kind == 'return' else 'raises something else'))
+            c.require(set(outcomes) == {'ok', 'failed'},
+                      'C01-k: the test of the result in %s.%s is not understood (%s)' % (ae.name, name, sorted(outcomes)))
+            c.expect(outcomes['failed'] == {'raises the failure of the step'} and outcomes['ok'] == {'returns'},
+                     'C01-k', 'atc-step-action/%s' % name,
+                     'the action of %s %s when the answer is "not successful" and %s when it is successful' % (
+                         name, ' / '.join(sorted(outcomes['failed'])), ' / '.join(sorted(outcomes['ok']))), act.loc())
+    c.floor('C01-k', 'step actions of the ATC executor', n_actions, 4)
